@@ -927,6 +927,9 @@ impl ReadConsumer for ReadObj {
     fn consume<R: Read>(self, r: R) -> Self::Out {
         read_obj(r)
     }
+    fn consume_path(self, path: &std::path::Path) -> Self::Out {
+        re_geom::io::load_obj(path)
+    }
 }
 
 /// Converts a library result and applies oracle S (shape) to it.
